@@ -376,7 +376,7 @@ def random_decl(rng, did, nmin=3, nmax=7, p_async=0.45, p_fallible=0.3, construc
         for s in list(pending_struct):
             if rng.random() < 0.8:
                 provs.append({'id': 'X%s' % s[1:], 'kind': 'structexp', 'requires': [], 'provides': [],
-                              'async': False, 'fallible': False, 'wrap': 'async-bind', 'struct': s})
+                              'async': rng.random() < 0.35, 'fallible': False, 'wrap': 'async-bind', 'struct': s})
                 for fn_, ft in types[s]['fields']:
                     produced.append(ft)
             pending_struct.remove(s)
@@ -401,6 +401,14 @@ def random_decl(rng, did, nmin=3, nmax=7, p_async=0.45, p_fallible=0.3, construc
                       'fallible': rng.random() < p_fallible, 'wrap': 'async-bind', 'struct': ''})
         d['ret'] = t
     d['layout'] = random_layout(rng, [p['id'] for p in provs]) if constructs else [p['id'] for p in provs]
+    if constructs:
+        d['multi_name_sets'] = rng.random() < 0.4
+        for p in provs:
+            if p['kind'] == 'fn' and not p['requires'] and not p['fallible'] and len(p['provides']) == 1 and len(p['provides'][0]) == 1 \
+                    and rng.random() < 0.25:
+                p['as_value_call'] = True      # kessoku.Value(P()) / kessoku.Async(kessoku.Value(P()))
+            if p['kind'] == 'fn' and p['fallible'] and rng.random() < 0.25:
+                p['alias_error'] = True        # func P(...) (T, Failure) with type Failure = error
     return d
 
 
@@ -639,3 +647,30 @@ def make_group(gid, decls):
         v['group'] = gid
         out.append(v)
     return out
+
+
+def tree_decl(rng, did, n=6, p_async=0.85):
+    """Out-tree: every provider depends on at most one earlier provider (fan-out below fan-out), mostly Async; a final
+    provider consumes every leaf and some inner nodes."""
+    types = {}
+    provs = []
+    children = {}
+    for i in range(n):
+        types['T%d' % i] = {'form': rng.choice(['ptr', 'val'])}
+        req = []
+        if i > 0 and rng.random() < 0.85:
+            par = rng.randrange(i)
+            req = ['T%d' % par]
+            children.setdefault(par, []).append(i)
+        provs.append({'id': 'P%d' % i, 'kind': 'fn', 'requires': req, 'provides': [['T%d' % i]], 'async': rng.random() < p_async,
+                      'fallible': False, 'wrap': 'async-bind', 'struct': ''})
+    leaves = [i for i in range(n) if i not in children]
+    inner = [i for i in range(n) if i in children]
+    req = ['T%d' % i for i in leaves] + ['T%d' % i for i in inner if rng.random() < 0.5]
+    rng.shuffle(req)
+    types['T%d' % n] = {'form': 'ptr'}
+    provs.append({'id': 'P%d' % n, 'kind': 'fn', 'requires': req[:7], 'provides': [['T%d' % n]], 'async': rng.random() < 0.3,
+                  'fallible': False, 'wrap': 'async-bind', 'struct': ''})
+    ids = [p['id'] for p in provs]
+    rng.shuffle(ids)
+    return {'id': did, 'injector': 'Init_' + did, 'ret': 'T%d' % n, 'types': types, 'providers': provs, 'layout': ids, 'planted': None}
